@@ -68,6 +68,10 @@ def plan_items(prop, tier, seed, ncases):
     items = []
     base = (seed * 1_000_003 + sum(map(ord, prop))) & 0x7FFFFFFF
     nd = 0
+    if any(k == "directed" for k, _ in kinds):
+        # "every dispatch variant once" sweep: 60 single-thread worlds, in every tier
+        for q in range(60):
+            items.append(("directed", (base % 20000) * 100000 + 90000 + q, tier, prop))
     for i in range(n):
         kind = bag[i % len(bag)]
         if kind == "directed":
